@@ -519,7 +519,7 @@ def run_property(prop, module, theorems, tier, seed, nquick, nthorough, feature_
 
     def search(budget):
         rnd2 = core.rng(seed + 13, prop)
-        ps = gen_programs(rnd2, max(nthorough, 400), feature_sets, threads=threads, ticks=ticks)
+        ps = gen_programs(rnd2, max(nthorough, 400) if budget == 'thorough' else 1500, feature_sets, threads=threads, ticks=ticks)
         os_ = run_oracle(impl, ps, prop.lower() + 's')
         for i, (p, o) in enumerate(zip(ps, os_)):
             j = judge(i, p, o)
